@@ -65,6 +65,10 @@ def C02_adopt_full : Prop :=
     linked c.tbl hs = true → hs.all c.tbl.valid = true → (∀ h, hs.head? = some h → c.tbl.parent h = some (tipId s.log)) →
     s.ncp = none → (handleHeaders c s p hs).1.log = s.log ++ hs
 
+/-- NOTE: false by the letter on the code as it is (finding F16, known-findings.txt
+`reorg-truncated-at-checkpoint`): the reorg arm weighs the whole rest of the message but the
+loop breaks at the next checkpoint, so the stored part of a heavier branch can be lighter than
+what it displaced.  Kept as the full statement; the oracle reports that shape separately. -/
 def C02_work_monotone : Prop :=
   ∀ (c : Cfg) (peers : List Peer) (es : List Ev) (e : Ev), 1 ≤ c.win →
     let s := run c (init c peers) es
